@@ -1511,4 +1511,122 @@ theorem sinv_step (a : Args) (hs : isStat a.op = true) (s : St) (e : Ev)
       simp at hc
     · exact h
 
+theorem work_opendir (q : Req) (l : Ledger) (outs : List Outcome) (ho : q.op = .opendir)
+    (hd : l.dir = 0 ∧ l.dirstream = 0) (hnz : Outcome.fail 0 ∉ outs) :
+    (work q l outs).2.userOwned = if (work q l outs).1.result = 0 then 2 else 0 := by
+  induction outs generalizing q l with
+  | nil =>
+    rw [work_nil]
+    simp [attempt, ho, finishWork, Ledger.userOwned, hd, FsBuf.EIO]
+  | cons o rest ih =>
+    rw [work_cons]
+    cases o with
+    | ok n =>
+      simp [attempt, ho, finishWork, Ledger.userOwned, Ledger.alloc, Ledger.get, Ledger.set, hd]
+    | fail e =>
+      have he : e ≠ 0 := by
+        intro h; subst h; exact hnz (List.mem_cons_self ..)
+      simp only [attempt, ho]
+      split
+      · exact ih _ l (by simp [ho]) hd (fun h => hnz (List.mem_cons_of_mem _ h))
+      · simp [finishWork, Ledger.userOwned, hd]; omega
+
+def DInv (a : Args) (s : St) : Prop :=
+  (s.phase = .worked ∨ s.phase = .done) → s.l.userOwned = (if s.req.result = 0 then 2 else 0)
+
+theorem submit_dinv (a : Args) (ho : a.op = .opendir) (hnz : Outcome.fail 0 ∉ a.outs) : DInv a (submit a (init a)).1 := by
+  have hL0 : (init a).l.reqOwned = 0 ∧ (init a).l.badFree = 0 := by
+    simp only [init]; split <;> simp [Ledger.reqOwned, Ledger.empty]
+  unfold submit
+  simp only []
+  split
+  · intro hp; simp at hp
+  · split
+    · intro hp; simp at hp
+    · rename_i q1 l1 hcp
+      obtain ⟨r1, o1, c1, b1, p1, z1, d1, d2⟩ := copyPaths_spec a _ hL0.1 hL0.2 q1 l1 hcp
+      split
+      · intro hp; simp at hp
+      · rename_i q2 l2 hcb
+        have hd : (a.op = .readdir ∨ a.op = .closedir) → l1.dir = 1 ∧ l1.dirstream = 1 := by
+          intro hh; rw [ho] at hh; simp at hh
+        have hod : a.op = .opendir → l1.dir = 0 ∧ l1.dirstream = 0 := by
+          intro hh; rw [d1, d2]; simp [init, hh, Ledger.empty]
+        obtain ⟨r2, w2, o2, c2, u2⟩ := copyBufs_spec a q1 l1 r1 o1 c1 b1 p1 z1 hd hod q2 l2 hcb
+        split
+        · rename_i hur
+          simp [ho, hasSubmitter] at hur
+        · split
+          · intro hp; simp at hp
+          · intro _
+            exact work_opendir q2 l2 a.outs (by rw [o2]; exact ho) (w2.od (by rw [o2]; exact ho)) hnz
+
+theorem dinv_step (a : Args) (ho : a.op = .opendir) (s : St) (e : Ev)
+    (hnz0 : Outcome.fail 0 ∉ a.outs) (hnz : ∀ os, e = .work os → Outcome.fail 0 ∉ os)
+    (hL : LInv a s) (hP : PInv a s) (h : DInv a s) : DInv a (step a s e).1 := by
+  cases e with
+  | submit =>
+    rw [step_submit]
+    split
+    · rename_i hp; rw [hP.idle hp]; exact submit_dinv a ho hnz0
+    · exact h
+  | cancel =>
+    rw [step_cancel]
+    split
+    · intro hp; simp at hp
+    all_goals exact h
+  | work outs =>
+    rw [step_work]
+    split
+    · rename_i hp
+      have hq : s.phase ≠ .idle := by simp [hp]
+      have w := hL.pre (Or.inl hp)
+      have hop : s.req.op = .opendir := by rw [(hP.oc hq).1]; exact ho
+      intro _
+      exact work_opendir s.req s.l outs hop (w.od hop) (hnz outs rfl)
+    · exact h
+  | done =>
+    rw [step_done]
+    split
+    · rename_i hp
+      intro _
+      exact h (Or.inl hp)
+    · rename_i hp
+      have hq : s.phase ≠ .idle := by simp [hp]
+      have w := hL.pre (Or.inr hp)
+      have hop : s.req.op = .opendir := by rw [(hP.oc hq).1]; exact ho
+      intro _
+      simp [fsDone, UV_ECANCELED, Ledger.userOwned, w.od hop]
+    · exact h
+  | cqe res =>
+    rw [step_cqe]
+    split
+    · rename_i hp
+      have hq : s.phase ≠ .idle := by simp [hp]
+      have hop : s.req.op = .opendir := by rw [(hP.oc hq).1]; exact ho
+      have := (hL.ur hp).sub
+      rw [hop] at this
+      simp [hasSubmitter] at this
+    · exact h
+  | next =>
+    rw [step_next]
+    split
+    · rename_i hp
+      have hq : s.phase ≠ .idle := by simp [hp.1]
+      have hop : s.req.op = .opendir := by rw [(hP.oc hq).1]; exact ho
+      rw [hp.2] at hop
+      simp at hop
+    · exact h
+  | cleanup =>
+    rw [step_cleanup]
+    split
+    · rename_i hp
+      have hq : s.phase ≠ .idle := by rcases hp with hp | hp <;> simp [hp]
+      intro hp'
+      simp only [] at hp' ⊢
+      rw [(cleanup_result s).2] at hp'
+      rw [(cleanup_result s).1, (cleanup_of_rel s (hL.rel hq) (hL.bufs hq)).2.2]
+      exact h hp'
+    · exact h
+
 end UvModel.FsReq
